@@ -73,12 +73,12 @@ def _rr_calls(facts, body):
         if call_name(c.term) == 'reset_remove' and len(c.args) == 2 and versionless(c.args[1].val) == ('param', 2):
             ev = elem_value_of(c.args[0].val)
             lp = loop_of_block(it, bb)
-            if ev and lp is not None and param_path(ev[0]) and param_path(ev[0])[0] == 1 and ev[1] == '*' and lp.whole_over(1):
+            if ev and lp is not None and param_path(ev[0]) and param_path(ev[0])[0] == 1 and ev[1] == '*' and lp.whole_over(1) and not lp.early_exits():
                 rcx = Reach(facts, body, Evaluator(facts))
                 if lp.must(rcx, [bb]) and lp.always_entered(rcx):
                     out.append(((param_path(ev[0])[1][0], (ev[2],) + tuple(ev[3])), bb, body, it, {'loop': True}))
         for clo, m in closure_bindings(c.term):
-            cb = facts.by_uid.get(clo[1])
+            cb = facts.cb(clo[1])
             if cb is None:
                 continue
             cit = interp(facts, cb)
@@ -146,7 +146,7 @@ def rr_prune(ctx):
             if call_name(c.term) not in ('filter_map', 'retain', 'filter', 'retain_mut', 'extract_if', 'drain_filter'):
                 continue
             for clo, m in closure_bindings(c.term):
-                cb = facts.by_uid.get(clo[1])
+                cb = facts.cb(clo[1])
                 item = _binding_item(m)
                 if cb is None or item is None:
                     continue
@@ -203,7 +203,7 @@ def rr_prune(ctx):
             if (inst, field) in done_fields or not clock_positions(facts, fdef['ty'], params) or fdef['ty'].get('path') == VCLOCK:
                 continue
             for lp in loops_of(it):
-                if not lp.whole_over(1, (field,)):
+                if not lp.whole_over(1, (field,)) or lp.early_exits():
                     continue
                 flt = item_filter(facts, it, lp, (field,))
                 resets = [(bb, c2) for bb, c2 in it.calls.items() if bb in lp.blocks and is_call(c2.term, 'reset_remove', self_adt='VClock')
